@@ -52,6 +52,24 @@ Definition ops_C07 : list opdef := [
            | Some k, Some m, Some sc => v_marshal_spec k sc m
            | _, _, _ => VBad end
        | _ => VBad end) |};
+  (* widening: [kind, [chunk, chunk, ...], terminal kind, with last]: the reader delivers exactly these chunks,
+     EMPTY ones included (a Read that returns (0, nil)); the last chunk must not be empty.  Same observation
+     and same specification (on the concatenation) as pbcmpl.Unmarshal/stream *)
+  {| op_name := "pbcmpl.Unmarshal/chunks";
+     op_run := fun a => match a with
+       | [k; cs; tk; wl] => match as_z k, as_zss cs, as_z tk, as_bool wl with
+           | Some k, Some cs, Some tk, Some wl =>
+               if kind_ok k && forallb bytes_okb cs && negb (is_nil (last cs [0])) then v_stream_model k (cs, term_of tk wl)
+               else VBad
+           | _, _, _, _ => VBad end
+       | _ => VBad end;
+     op_spec := fun a obs => match a with
+       | [k; cs; tk; wl] => match as_z k, as_zss cs, as_z tk, as_bool wl with
+           | Some k, Some cs, Some tk, Some wl =>
+               val_eqb (v_stream_spec k EEOF (List.concat cs) (term_of tk wl)) obs
+               || val_eqb (v_stream_spec k EUnexpectedEOF (List.concat cs) (term_of tk wl)) obs
+           | _, _, _, _ => false end
+       | _ => false end |};
   (* widening: [stream bytes, chunk pattern, terminal kind, with last] -> arbitrary bytes walked with
      ReadHeader + io.ReadFull: [[[n, errclass, ver, hsize, bsize, body bytes, refused] per step], left] *)
   {| op_name := "pbcmpl.Walk/bytes";
